@@ -88,7 +88,7 @@ ALL_RUNS = [
 
 class P(Prop):
     id = "C08"
-    quick_cases = 12000
+    quick_cases = 30000
     thorough_cases = 200000
     chunk = 1000
     rule = (
